@@ -833,8 +833,15 @@ def rule_per_block(model):
     return r
 
 
+def rule_frozen_options(model):
+    """fmt=html-quote / html_quote rewritten into the options after the
+    modifier list was derived: the full render path never quotes."""
+    from .c15 import rule_frozen_options as f
+    return f(model, 'C03.R6')
+
+
 RULES = [rule_one_escaper, rule_fast_path, rule_entity, rule_identity,
-         rule_per_block]
+         rule_per_block, rule_frozen_options]
 EXPLANATION = (
     'Resolved-callee query for the escaper on all quoting paths; set '
     'inclusion between the characters the fast path tests and the '
